@@ -49,6 +49,7 @@ type msg struct {
 }
 
 type world struct {
+	frame []byte // message || share of signer 0 in one buffer (nil: separate allocations)
 	c     *choice.Src
 	o     engine.Opt
 	out   *engine.Out
@@ -243,6 +244,15 @@ func (w *world) run() {
 	rnd := c.Sub("inputs")
 	seed := rnd.Bytes(32 + rnd.Intn(32))
 	w.msgB = rnd.Bytes(rnd.Intn(100))
+	w.frame = nil
+	if c.Bool(1, 2, "msg.and.share.in.one.frame") {
+		// a received frame "message || share": the message's spare capacity IS the share of
+		// signer 0 (copied in below)
+		w.frame = make([]byte, len(w.msgB)+48+16)
+		copy(w.frame, w.msgB)
+		w.msgB = w.frame[:len(w.msgB)]
+		out.Faults["shape.message_and_share_share_backing_array"]++
+	}
 	w.tag = fmt.Sprintf("thrnet-%d", rnd.Intn(1000))
 	out.Params["n"], out.Params["t"] = w.n, w.t
 	w.fp = append(w.fp, fmt.Sprint(w.n, w.t))
@@ -270,6 +280,10 @@ func (w *world) run() {
 		if err != nil {
 			w.viol("C06", "sign", "sign.error", "Sign failed: %v", err)
 			return
+		}
+		if w.frame != nil && i == 0 && len(s) == 48 {
+			copy(w.frame[len(w.msgB):], s)
+			s = w.frame[len(w.msgB) : len(w.msgB)+48]
 		}
 		w.pool = append(w.pool, thrmodel.Share{Bytes: s, Kind: "true", TrueOf: i})
 	}
@@ -448,6 +462,12 @@ func (w *world) run() {
 					m.share = mkBad(kind, i)
 					m.label = "byz:" + kind
 					out.Faults["byz.share."+kind]++
+					if c.Bool(1, 4, "byz.equivocate") {
+						// the signer ALSO sends its genuine share: two different shares under one
+						// signer index, in whatever order the network delivers them
+						pending = append(pending, msg{from: i, to: col.id, share: i, orig: i, label: "byz:equivocation:genuine-copy"})
+						out.Faults["byz.equivocation"]++
+					}
 				} else if c.Bool(1, 3, "byz.omit") {
 					out.Faults["byz.omit"]++
 					continue
